@@ -680,6 +680,9 @@ func (ex *Exec) applyContract(st *State, con *Contract, sfn *ssa.Function, c *ss
 	if con.ModAll {
 		ex.havocEverything(st)
 	} else {
+		if !con.Inert {
+			ex.allocAdvance(st)
+		}
 		for _, m := range con.Mod {
 			var lvs []lvalue
 			func() {
@@ -706,6 +709,9 @@ func (ex *Exec) applyContract(st *State, con *Contract, sfn *ssa.Function, c *ss
 				if lv.ty != nil {
 					if rf := g.rangeFact(lv.ty, fv); rf != "" {
 						g.addFact(rf)
+					}
+					if af := g.allocFact(lv.ty, fv, g.get(st, "alloc"), 0); af != "" {
+						g.addFact(af)
 					}
 				} else if ct, ok := g.compTy[lv.comp]; ok {
 					switch ct.kind {
